@@ -594,6 +594,53 @@ func chainRule(c *core.Ctx) {
 				problems = append(problems, fmt.Sprintf("only %d looked-up characters reach a rune-wide sink (expected the default-table and the extension-table result)", emitted))
 			}
 		}
+		// context (decoders): the septet that follows an escape is looked up in the extension table only, every other
+		// septet in the default table only - a fallback from one table to the other accepts pairs the alphabet does not
+		// define (ESC 0x41 as "A") or reads an extension code as a default character
+		if !f.encode {
+			isEscTest := func(cond ssa.Value) bool {
+				bo, isB := cond.(*ssa.BinOp)
+				if !isB || (bo.Op != token.EQL && bo.Op != token.NEQ) {
+					return false
+				}
+				if k, ok := constInt(bo.Y); ok && k == esc && dependsOn(bo.X, roots, map[ssa.Value]bool{}) {
+					return true
+				}
+				if k, ok := constInt(bo.X); ok && k == esc && dependsOn(bo.Y, roots, map[ssa.Value]bool{}) {
+					return true
+				}
+				return false
+			}
+			for _, lk := range lookups {
+				afterEsc, plain := false, false
+				for d := lk.Block(); d.Idom() != nil; d = d.Idom() {
+					id := d.Idom()
+					ifi, ok := id.Instrs[len(id.Instrs)-1].(*ssa.If)
+					if !ok || id.Succs[0] == id.Succs[1] || !isEscTest(ifi.Cond) {
+						continue
+					}
+					vt, vf := viaEdge(id, d)
+					if ifi.Cond.(*ssa.BinOp).Op == token.NEQ {
+						vt, vf = vf, vt
+					}
+					if vt {
+						afterEsc = true
+					}
+					if vf {
+						plain = true
+					}
+				}
+				g := globalOf(lk.X)
+				switch {
+				case afterEsc && g == "reverseLookup":
+					problems = append(problems, "the septet after an escape is looked up in the default table at "+c.Prog.Pos(lk.Pos())+": an escape pair the extension table does not define is accepted instead of refused")
+				case plain && !afterEsc && g == "reverseEscape":
+					problems = append(problems, "a septet that does not follow an escape is looked up in the extension table at "+c.Prog.Pos(lk.Pos()))
+				case !afterEsc && !plain:
+					problems = append(problems, "a table lookup at "+c.Prog.Pos(lk.Pos())+" is not under a test of the septet against the escape code: the table cannot be the right one for both kinds of septet")
+				}
+			}
+		}
 		c.Decide(len(problems) == 0, "C08-CHAIN", key, pos, fmt.Sprintf("%s then %s; every character-dependent decision is a table lookup", want[0], want[1]), strings.Join(uniq(problems), "; "))
 	}
 }
